@@ -674,7 +674,7 @@ class DataSet:
             "frequencies": self._frequencies.tolist(),
             "real_impedances": self._impedances.real.tolist(),
             "imaginary_impedances": self._impedances.imag.tolist(),
-            "mask": self.get_mask(),
+            "mask": {i: bool(flag) for i, flag in self._mask.items()},
             "uuid": self.uuid,
         }
 
